@@ -48,6 +48,17 @@ def run(c):
     im = np.asarray(r.render_source(p, prof), np.float64)
     if prof == "sersic":
         ref = RR.pixel_integrate(N, p)
+    elif prof == "sersic_pointsource":
+        # extended part + a point of light at the SAME (xc, yc): the reference adds the point after the convolution as the analytic
+        # (pixel-sampled, unit-sum) Gaussian PSF centred on (xc, yc)
+        ext = dict(p, flux=p["flux"] * (1 - p["f_ps"]))
+        ref = RR.pixel_integrate(N, ext)
+        ref = RR.convolve_centered(ref, psf)
+        s_ = c["fwhm"] / 2.3548
+        cols_, rows_ = np.meshgrid(np.arange(N), np.arange(N))
+        g_ = np.exp(-0.5 * ((cols_ - p["xc"]) ** 2 + (rows_ - p["yc"]) ** 2) / s_ ** 2)
+        ref = ref + p["flux"] * p["f_ps"] * g_ / g_.sum()
+        c = dict(c, psf="delta")        # (already convolved above)
     else:
         # composite: the sum of its two components, each with its own r_eff, n and ELLIPTICITY, sharing centre and angle
         comps = {"doublesersic": (("n_1", "n_2")), "sersic_exp": (("n", None))}[prof]
@@ -68,14 +79,14 @@ def run(c):
     # the centroid itself: xc is the column, yc the row coordinate
     if np.hypot(mi["x"] - p["xc"], mi["y"] - p["yc"]) > tol_c + 0.05:
         out["oracle"].append("light centroid (%.3f, %.3f) is not at (xc, yc) = (%.3f, %.3f)" % (mi["x"], mi["y"], p["xc"], p["yc"]))
-    if 0.3 <= p["ellip"] <= 0.8:
+    if 0.3 <= p["ellip"] <= 0.8 and not c.get("centroid_only"):
         if dang(mi["pa"], mr["pa"]) > tol_pa:
             out["oracle"].append("position angle %.4f vs reference %.4f (tolerance %.2f rad)" % (mi["pa"], mr["pa"], tol_pa))
         if dang(mi["pa"], p["theta"]) > 0.15:
             out["oracle"].append("major axis at %.3f rad from +y towards -x, theta = %.3f" % (mi["pa"], p["theta"] % np.pi))
         if abs(mi["q"] / mr["q"] - 1) > tol_q:
             out["oracle"].append("axis ratio %.4f vs reference %.4f" % (mi["q"], mr["q"]))
-    if (not pix) or p["n"] <= 2.5:
+    if ((not pix) or p["n"] <= 2.5) and not c.get("centroid_only"):
         # the size clause is judged with a narrower weight (1.5 r_eff): the Fourier renderers' wrapped-around
         # light inflates wide-weight second moments at high n although the convention is right
         sws = max(c.get("sw_size_factor", 1.5) * p["r_eff"], 3.0)
